@@ -40,13 +40,26 @@ def mask_of(bits, stride, lb, ub, empty=False):
     return m
 
 
+def bswap(v, bits):
+    out = 0
+    for _ in range(bits // 8):
+        out = (out << 8) | (v & 0xFF)
+        v >>= 8
+    return out
+
+
 def gamma_mask(si):
-    """Member set of a StridedInterval as a bit mask (only for widths where 2^bits is small)."""
+    """Member set of a StridedInterval as a bit mask (only for widths where 2^bits is small).  An interval flagged as
+    reversed denotes the byte-swapped images of the members of the interval as written (delayed reversal)."""
     if si.is_empty:
         return 0
-    if getattr(si, "_reversed", False):
-        si = si._reverse()
-    return mask_of(si.bits, si.stride, si.lower_bound, si.upper_bound)
+    m = mask_of(si.bits, si.stride, si.lower_bound, si.upper_bound)
+    if getattr(si, "_reversed", False) and si.bits % 8 == 0 and si.bits > 8:
+        out = 0
+        for v in members(m):
+            out |= 1 << bswap(v, si.bits)
+        return out
+    return m
 
 
 def members(mask):
@@ -66,6 +79,8 @@ def contains(si, v):
         return False
     mod = 1 << si.bits
     v %= mod
+    if getattr(si, "_reversed", False) and si.bits % 8 == 0 and si.bits > 8:
+        v = bswap(v, si.bits)  # delayed reversal: v is a member iff its byte-swapped image is in the interval as written
     lb, ub, s = si.lower_bound % mod, si.upper_bound % mod, si.stride
     if s == 0:
         return v == lb
